@@ -798,7 +798,7 @@ class _ClassBuilder:
             # This makes typing.get_type_hints(CLS.__init__) resolve string
             # types.  It comes first: whatever the defining module happens to
             # bind must never replace the names the generated code relies on.
-            globs.update(sys.modules[self._cls.__module__].__dict__)
+            globs.update(vars(sys.modules[self._cls.__module__]))
         globs.update(_GENERATED_CODE_BUILTINS)
         for _, snippet_globs, _ in self._script_snippets:
             globs.update(snippet_globs)
